@@ -208,6 +208,9 @@ class ExprMixin:
                 if r[0] == 'sv':
                     yield r[1], st
                     return
+                if r[0] == 'sv_env':           # the expression denotes a (ghost) parameter of the contract
+                    yield st.env[r[1]], st
+                    return
                 if r[0] == 'contract':
                     yield from self.apply_contract(self.reg.contracts[r[1]], [], {}, st, e)
                     return
@@ -277,6 +280,7 @@ class ExprMixin:
                 elif u.kind == 'none': t = TOpt(t)
                 elif t.kind == 'none': t = TOpt(u)
                 elif t.kind == 'opt' and t.args[0] == u: pass
+                elif u.kind == 'opt' and u.args[0] == t: t = u
                 elif t.kind == 'obj' and u.kind == 'obj':
                     common = [c for c in self.reg.mro(t.args[0]) if c in self.reg.mro(u.args[0])]
                     t = TObj(common[0]) if common else ANY
@@ -720,6 +724,9 @@ class ExprMixin:
             kind, c, ty = f
             if kind == 'field':
                 res = SV(ty, st.fld(v.z, c, attr, sort_of(ty)))
+                if attr in self.reg.classes[c].dynamic and not self.specmode and not getattr(self, '_dyn_probe', 0):
+                    # an attribute that may be absent: a plain read raises AttributeError unless it is there
+                    self.check(st, z3.Not(opt_is_none(res)), 'AttributeError', 'absent', node)
             else:
                 res = SV(ty, z3.Function('const_%s_%s' % (c, attr), Ref, sort_of(ty))(v.z))
             self.assume_typed(res, st, depth=0)
